@@ -658,12 +658,13 @@ Qed.
 
 Definition same_filters (o o' : opts) : Prop :=
   o_real o = o_real o' /\ o_state o = o_state o' /\ o_query o = o_query o' /\
-  o_basis o = o_basis o' /\ o_kp o = o_kp o' /\ o_kd o = o_kd o' /\ o_kt o = o_kt o'.
+  o_basis o = o_basis o' /\ o_kp o = o_kp o' /\ o_kd o = o_kd o' /\ o_kt o = o_kt o' /\
+  o_begin o = o_begin o' /\ o_end o = o_end o'.
 
 Lemma brow_of_same_filters ord o o' ps a :
   same_filters o o' -> brow_of ord o ps a = brow_of ord o' ps a.
 Proof.
-  destruct o, o'. unfold same_filters. cbn. intros (-> & -> & -> & -> & -> & -> & ->). reflexivity.
+  destruct o, o'. unfold same_filters. cbn. intros (-> & -> & -> & -> & -> & -> & -> & -> & ->). reflexivity.
 Qed.
 
 Lemma map_res'_forall {A B} (F : A -> res B) : forall l rs,
@@ -1102,17 +1103,27 @@ Proof.
   destruct (P x) eqn:EP; destruct (Q' x) eqn:EQ; cbn [filter]; rewrite ?EP, ?EQ, IH; reflexivity.
 Qed.
 
+(* clear_xdata wipes every posting of the journal: with the regenerated test (ITEM_TEMP only)
+   nothing but a temporary survives *)
+Lemma survives_clear_journal p : p_temp p = false -> survives_clear p = false.
+Proof. unfold survives_clear. intros ->. reflexivity. Qed.
+
 Lemma acct_lposts_fresh o ps a :
+  (forall p, In p ps -> p_temp p = false) ->
   map lp_amt (filter lp_fresh (acct_lposts o ps a)) = map (amt o) (own_posts (selected o ps) a).
 Proof.
-  unfold acct_lposts, own_posts, selected. rewrite fresh_of_new, filter_comm. reflexivity.
+  intros Ht. unfold acct_lposts, own_posts, selected. rewrite fresh_of_new, filter_comm. f_equal.
+  rewrite (filter_ext_in' (visited_at_report o) (sel o)); [reflexivity|].
+  intros p Hp. unfold visited_at_report.
+  rewrite (survives_clear_journal p (Ht p Hp)). apply orb_false_r.
 Qed.
 
 Lemma own_lazy_eq ord o ps a :
+  (forall p, In p ps -> p_temp p = false) ->
   own_lazy_twice ord o ps a = own_of ord o ps a.
 Proof.
-  unfold own_lazy_twice, own_of, own. unfold amount_call at 1. cbn [sd_last sd_total skipn firstn app].
-  rewrite walk_spec, acct_lposts_fresh.
+  intros Htemp. unfold own_lazy_twice, own_of, own. unfold amount_call at 1. cbn [sd_last sd_total skipn firstn app].
+  rewrite walk_spec, (acct_lposts_fresh _ _ _ Htemp).
   destruct (vsum ord VVoid (map (amt o) (own_posts (selected o ps) a))) as [t|] eqn:E; cbn [bind fst snd];
     [|reflexivity].
   unfold amount_call. cbn [sd_last sd_total]. rewrite walk_spec.
@@ -1917,3 +1928,82 @@ Lemma layout_reads_back_uncond ord cp o ps rows :
 Proof.
   intros Hflat. apply layout_reads_back_gen; [exact Hflat|apply layout_ok_holds; exact Hflat].
 Qed.
+
+(* ------------------- an inferred (bucket) posting is an ordinary posting of the journal *)
+
+Definition as_written (p : posting) : posting :=
+  mkPost (p_xact p) (p_payee p) (p_xstate p) (p_pstate p) (p_acct p) (p_virtual p) (p_amt p)
+         (p_cost p) (p_date p) false (p_temp p).
+
+Lemma sel_as_written o p : sel o (as_written p) = sel o p.
+Proof. reflexivity. Qed.
+
+Lemma amt_as_written o p : amt o (as_written p) = amt o p.
+Proof. reflexivity. Qed.
+
+Lemma filter_map_comm {A} (g : A -> A) (P : A -> bool) : forall l,
+  (forall x, P (g x) = P x) -> filter P (map g l) = map g (filter P l).
+Proof.
+  intros l H. induction l as [|x l IH]; cbn [map filter]; [reflexivity|].
+  rewrite H. destruct (P x); cbn [map]; rewrite IH; reflexivity.
+Qed.
+
+Lemma own_map ord (f : posting -> amount) (g : posting -> posting) sp a :
+  (forall p, f (g p) = f p) -> (forall p, p_acct (g p) = p_acct p) ->
+  own ord f (map g sp) a = own ord f sp a.
+Proof.
+  intros Hf Ha. unfold own, own_posts.
+  rewrite (filter_map_comm g (fun p => path_eqb (p_acct p) a)) by (intros x; rewrite Ha; reflexivity).
+  rewrite map_map. f_equal. apply map_ext. exact Hf.
+Qed.
+
+Lemma kids_total_ext ord (F G : path -> res value) : forall ks acc,
+  (forall k, F k = G k) -> kids_total ord F ks acc = kids_total ord G ks acc.
+Proof.
+  induction ks as [|k ks IH]; intros acc H; cbn [kids_total]; [reflexivity|].
+  rewrite H. destruct (G k) as [t|]; cbn [bind]; [|reflexivity].
+  destruct (add_nonnull ord acc t); cbn [bind]; [|reflexivity]. apply IH, H.
+Qed.
+
+Lemma total_map ord (f : posting -> amount) (g : posting -> posting) all sp :
+  (forall p, f (g p) = f p) -> (forall p, p_acct (g p) = p_acct p) ->
+  forall fuel a, total fuel ord f all (map g sp) a = total fuel ord f all sp a.
+Proof.
+  intros Hf Ha. induction fuel as [|n IH]; intros a; cbn [total].
+  - apply own_map; assumption.
+  - rewrite (kids_total_ext ord _ _ _ _ IH), (own_map ord f g sp a Hf Ha). reflexivity.
+Qed.
+
+Lemma max_depth_map (g : posting -> posting) ps :
+  (forall p, p_acct (g p) = p_acct p) -> max_depth (map g ps) = max_depth ps.
+Proof.
+  intros Ha. induction ps as [|p ps IH]; [reflexivity|]. cbn [map max_depth fold_right].
+  rewrite Ha. unfold max_depth in IH. rewrite IH. reflexivity.
+Qed.
+
+(* no total depends on the ITEM_INFERRED flag: the report treats the posting finalize() added
+   for the default account exactly like a written one *)
+Lemma total_of_as_written ord o ps a :
+  total_of ord o (map as_written ps) a = total_of ord o ps a.
+Proof.
+  unfold total_of, selected.
+  rewrite (max_depth_map as_written ps (fun _ => eq_refl)), map_map.
+  rewrite (filter_map_comm as_written (sel o) ps (sel_as_written o)).
+  rewrite (map_ext (fun x => p_acct (as_written x)) p_acct (fun _ => eq_refl)).
+  apply total_map; reflexivity.
+Qed.
+
+Lemma reg_rows_as_written ord o ps :
+  reg_rows ord o (map as_written ps) = reg_rows ord o ps.
+Proof.
+  unfold reg_rows, selected, rows_of.
+  rewrite (filter_map_comm as_written (sel o) ps (sel_as_written o)), map_map.
+  rewrite (map_ext (fun x => amt o (as_written x)) (amt o) (amt_as_written o)).
+  destruct (running ord VVoid (map (amt o) (filter (sel o) ps))) as [ts|]; cbn [bind]; [|reflexivity].
+  f_equal. generalize (filter (sel o) ps). intros l. revert ts.
+  induction l as [|p l IH]; intros [|t ts]; cbn [map combine]; try reflexivity.
+  rewrite IH. reflexivity.
+Qed.
+
+Lemma visited_at_report_journal o p : p_temp p = false -> visited_at_report o p = sel o p.
+Proof. intros H. unfold visited_at_report. rewrite (survives_clear_journal p H). apply orb_false_r. Qed.
